@@ -34,6 +34,32 @@ pub struct Edge {
 }
 impl Edge {
     ///
+    /// keeps the edges whose source node is stored in the room
+    /// returns the valid edges and the source id of the others
+    ///
+    pub fn filter_source_in_room(
+        room_id: &Uid,
+        edges: Vec<(Edge, String)>,
+        conn: &Connection,
+    ) -> std::result::Result<(Vec<(Edge, String)>, Vec<Uid>), rusqlite::Error> {
+        let mut stmt =
+            conn.prepare_cached("SELECT room_id FROM _node WHERE id = ? AND _entity = ?")?;
+        let mut valid = Vec::new();
+        let mut invalid = Vec::new();
+        for (edge, name) in edges {
+            let source_room: Option<Option<Uid>> = stmt
+                .query_row((&edge.src, &edge.src_entity), |row| row.get(0))
+                .optional()?;
+            if source_room == Some(Some(*room_id)) {
+                valid.push((edge, name));
+            } else {
+                invalid.push(edge.src);
+            }
+        }
+        Ok((valid, invalid))
+    }
+
+    ///
     /// Creates the required tables and indexes
     /// Edge can be efficiently queried in the two directions: src->dest and dest->src
     /// rowid is is useless for this table
@@ -502,6 +528,7 @@ impl EdgeDeletionEntry {
 
     ///
     /// find the edge author to verify authorisation before deletion
+    /// a deletion whose edge starts from a node stored in another room is ignored
     ///
     pub fn with_source_authors(
         edges: Vec<Self>,
@@ -518,6 +545,8 @@ impl EdgeDeletionEntry {
             dest=? AND 
             cdate=?";
         let mut stmt = conn.prepare_cached(query)?;
+        let mut room_stmt =
+            conn.prepare_cached("SELECT room_id FROM _node WHERE id = ? AND _entity = ?")?;
         for e in edges {
             let rs: Option<Vec<u8>> = stmt
                 .query_row(
@@ -526,6 +555,16 @@ impl EdgeDeletionEntry {
                 )
                 .optional()?;
 
+            if rs.is_some() {
+                let source_room: Option<Option<Uid>> = room_stmt
+                    .query_row((&e.src, &e.src_entity), |row| row.get(0))
+                    .optional()?;
+                if let Some(source_room) = source_room {
+                    if source_room != Some(e.room_id) {
+                        continue;
+                    }
+                }
+            }
             result.push((e, rs));
         }
         Ok(result)
